@@ -22,6 +22,7 @@ import (
 	"time"
 
 	"github.com/hashicorp/consul/agent/structs"
+	"github.com/hashicorp/consul/api"
 	"github.com/hashicorp/consul/internal/verifkit"
 	vs "github.com/hashicorp/consul/internal/verifstate"
 	"pgregory.net/rapid"
@@ -59,13 +60,41 @@ func verifC01Run(f verifkit.F, c *verifkit.Case, cov *verifCoverage, plan *vs.FC
 	var resA []verifResult
 	var fams verifFamilies
 	accepted, rejected := 0, 0
+	delayed := map[string]verifDelayed{} // keys force-released (or deleted) when a session carrying a lock-delay ended
+	var elapsedA, elapsedB int64
+	paced := false
 	for i := 0; ; i++ {
 		cmd := next(a, i)
 		if cmd == nil {
 			break
 		}
 		c.Op(cmd)
+		if cmd.GapA > 0 {
+			time.Sleep(time.Duration(cmd.GapA)) // wall-clock pacing of replica A (fake clock)
+		}
+		before := verifLockDelayHolders(a)
 		res := a.apply(f, c, "C01", cmd)
+		elapsedA += cmd.GapA
+		elapsedB += cmd.GapB
+		if key := verifLockKey(cmd); key != "" {
+			if d, ok := delayed[key]; ok {
+				c.Label("lock-after-lockdelay-session-ended")
+				// does the delay still run on one replica and not on the other when the lock entry is applied?
+				if (elapsedA-d.atA < d.delay) != (elapsedB-d.atB < d.delay) {
+					c.Label("lock-after-lockdelay-session-ended/pacing-straddles-the-delay")
+				}
+			}
+		}
+		for sess, h := range before {
+			if _, s, _ := a.fsm.State().SessionGet(nil, sess, nil); s == nil {
+				for _, k := range h.keys {
+					delayed[k] = verifDelayed{delay: int64(h.delay), atA: elapsedA, atB: elapsedB}
+				}
+			}
+		}
+		if cmd.GapA != cmd.GapB {
+			paced = true
+		}
 		cmds = append(cmds, cmd)
 		resA = append(resA, res)
 		fams.note(cmd, res)
@@ -102,6 +131,9 @@ func verifC01Run(f verifkit.F, c *verifkit.Case, cov *verifCoverage, plan *vs.FC
 	}
 	skew := time.Duration(plan.SkewNS)
 	c.Label(verifSkewLabel(skew))
+	if paced {
+		c.Label("replicas-paced-differently")
+	}
 	if len(fams.fam) >= 3 && fams.multi {
 		c.NonTrivial()
 	}
@@ -115,6 +147,9 @@ func verifC01Run(f verifkit.F, c *verifkit.Case, cov *verifCoverage, plan *vs.FC
 		b := verifNewReplica(f)
 		closers = append(closers, b)
 		for i, cmd := range cmds {
+			if cmd.GapB > 0 {
+				time.Sleep(time.Duration(cmd.GapB)) // this replica's own pacing
+			}
 			rb := b.apply(f, c, "C01", cmd)
 			if rb.Canon != resA[i].Canon {
 				path, orderOnly := verifJSONDiff(resA[i].Canon, rb.Canon)
@@ -164,7 +199,9 @@ func TestVerifC01Replicas(t *testing.T) {
 				if i >= n {
 					return nil
 				}
-				return g.next(t)
+				cmd := g.next(t)
+				cmd.GapA, cmd.GapB = verifDrawGap(t, "gapA"), verifDrawGap(t, "gapB")
+				return cmd
 			})
 		})
 		c.Done()
@@ -209,4 +246,73 @@ func TestVerifC01Replay(t *testing.T) {
 		plan, cmds := verifLoadCmds(t, path)
 		run("replay", plan, cmds)
 	}
+}
+
+
+// verifDrawGap draws the wall-clock time that passes on one replica before an entry: mostly none, sometimes a
+// millisecond to a minute (the range of lock delays and timers), sometimes hours.
+func verifDrawGap(t *rapid.T, label string) int64 {
+	switch k := rapid.IntRange(0, 19).Draw(t, label); {
+	case k <= 12:
+		return 0
+	case k <= 14:
+		return int64(time.Duration(rapid.IntRange(1, 5000).Draw(t, label+"ms")) * time.Millisecond)
+	case k <= 17:
+		return int64(time.Duration(rapid.IntRange(5, 90).Draw(t, label+"s")) * time.Second)
+	}
+	return int64(time.Duration(rapid.IntRange(1, 48).Draw(t, label+"h")) * time.Hour)
+}
+
+type verifDelayed struct{ delay, atA, atB int64 }
+
+type verifDelayHolder struct {
+	delay time.Duration
+	keys  []string
+}
+
+// verifLockDelayHolders lists, per live session that carries a lock-delay, the keys it holds.
+func verifLockDelayHolders(r *verifReplica) map[string]*verifDelayHolder {
+	out := map[string]*verifDelayHolder{}
+	st := r.fsm.State()
+	_, sessions, _ := st.SessionList(nil, nil)
+	for _, s := range sessions {
+		if s.LockDelay > 0 {
+			d := s.LockDelay
+			if d > structs.MaxLockDelay {
+				d = structs.MaxLockDelay
+			}
+			out[s.ID] = &verifDelayHolder{delay: d}
+		}
+	}
+	if len(out) == 0 {
+		return out
+	}
+	_, ents, _ := st.KVSList(nil, "", nil)
+	for _, e := range ents {
+		if h := out[e.Session]; h != nil {
+			h.keys = append(h.keys, e.Key)
+		}
+	}
+	return out
+}
+
+// verifLockKey returns the key a KVS lock command (or the first lock verb of a transaction) is about, else "".
+func verifLockKey(cmd *vs.FCmd) string {
+	switch cmd.MsgType() {
+	case structs.KVSRequestType:
+		var req structs.KVSRequest
+		if structs.Decode(cmd.Bytes()[1:], &req) == nil && req.Op == api.KVLock {
+			return req.DirEnt.Key
+		}
+	case structs.TxnRequestType:
+		var req structs.TxnRequest
+		if structs.Decode(cmd.Bytes()[1:], &req) == nil {
+			for _, op := range req.Ops {
+				if op.KV != nil && op.KV.Verb == api.KVLock {
+					return op.KV.DirEnt.Key
+				}
+			}
+		}
+	}
+	return ""
 }
